@@ -703,3 +703,81 @@ Qed.
 
 Print Assumptions C13_air_by_name.
 Print Assumptions C13_count_registry_air.
+
+(* ==================== PHASE 7: whole loops, the recount loop, the palette loops ==================== *)
+From GoMC Require Import Proofs.C13_skel_count Proofs.C13_skel_palette.
+
+(* ChunkFromSave for WHOLE chunks over the interpretation: the translated section-loop body iterated over the
+   section list (fs_loop), then the size test and the six height maps, each loaded from the key the translated
+   table gives for its field (from_save_rest) *)
+Theorem C13_from_save_translated : forall st_id bio_id is_air gs gb (c : schunk),
+  Forall (fun v => (-128 <= ss_y v < 128)%Z) (sc_secs c) -> (Z.of_N (lenN (sc_secs c)) < 2^31)%Z ->
+  from_save st_id bio_id is_air gs gb c =
+  match fs_loop st_id bio_id is_air gs gb (sc_ypos c) (Z.of_N (lenN (sc_secs c))) (sc_secs c)
+                (repeat None (List.length (sc_secs c))) with
+  | SOk ss => from_save_rest c ss
+  | SErr => SErr
+  | SPanic w => SPanic w
+  end.
+Proof. exact from_save_translated. Qed.
+(* ChunkToSave for WHOLE chunks: the translated loop body iterated with its index (ts_loop), then the height-map
+   assignments of the translated (key, field) table applied in order *)
+Theorem C13_to_save_translated : forall st_name bio_name (c : wchunk) (dst : schunk),
+  to_save st_name bio_name c dst =
+  match ts_loop st_name bio_name (sc_ypos dst) O (c_secs c), ts_heightmaps (c_hm c) (sc_hm dst) with
+  | SOk secs, Some m => SOk (mkSC secs m (c_status c) (sc_ypos dst))
+  | SOk _, None => SPanic 99
+  | SErr, _ => SErr
+  | SPanic w, _ => SPanic w
+  end.
+Proof. exact to_save_translated. Qed.
+(* Chunk.PutData for whole chunks: the translated body once per section, on every input *)
+Theorem C13_put_data_translated :
+  forall (cont : Type) (pc_read : bool -> cont -> dec (cont * N)), (forall b d, robust (pc_read b d)) ->
+  forall ds inp, run_flat (secs_read cont pc_read ds) inp = run_flat (pd_loop cont pc_read ds) inp.
+Proof. exact secs_read_whole. Qed.
+
+(* countNoneAirBlocks: the model's recount (any container model, any air set - in particular the by-name set of
+   C13_air_by_name) IS the translated loop: positions 0 .. bound-1 through Get, `blockCount++` on the int16 *)
+Theorem C13_count_loop_translated : forall (cont : Type) (get : cont -> Z -> outcome) (is_air : Z -> bool) c,
+  count_g cont get is_air c = cnt_loop cont get is_air c (seq 0 (Z.to_nat c13_countNoneAirBlocks_bound)) 0%Z.
+Proof. exact count_g_interp. Qed.
+Theorem C13_count_non_air_translated : forall is_air c,
+  count_non_air is_air c = cnt_loop wcont wc_get is_air c (seq 0 (Z.to_nat c13_countNoneAirBlocks_bound)) 0%Z.
+Proof. exact count_non_air_interp. Qed.
+
+(* readStatesPalette / readBiomesPalette: per palette entry the registry lookups with their error branches
+   (FromID, Unmarshal of the properties when present, ToStateID; UnmarshalText), the first failure wins, then the
+   constructor with the translated length *)
+Theorem C13_read_states_translated :
+  forall (Bk : Type) (from_id : list N -> option Bk) (unmarshal : Bk -> N * list N -> option Bk) (to_state : Bk -> option Z)
+         gs gb (pal : list (list N * (N * list N))) (dat : list N),
+  match opt_all (map (st_id_of Bk from_id unmarshal to_state) pal) with
+  | None => SErr
+  | Some ids => with_data gs gb false sec_len dat ids
+  end =
+  match map_loop (rs_iter Bk from_id unmarshal to_state) pal with
+  | SOk ids => with_data gs gb false c13_readStatesPalette_length dat ids
+  | SErr => SErr
+  | SPanic w => SPanic w
+  end.
+Proof. exact read_states_interp. Qed.
+Theorem C13_read_biomes_translated : forall (bio_id : list N -> option Z) gs gb (pal : list (list N)) (dat : list N),
+  match opt_all (map bio_id pal) with
+  | None => SErr
+  | Some ids => with_data gs gb true bio_len dat ids
+  end =
+  match map_loop (rb_iter bio_id) pal with
+  | SOk ids => with_data gs gb true c13_readBiomesPalette_length dat ids
+  | SErr => SErr
+  | SPanic w => SPanic w
+  end.
+Proof. exact read_biomes_interp. Qed.
+
+Print Assumptions C13_from_save_translated.
+Print Assumptions C13_to_save_translated.
+Print Assumptions C13_put_data_translated.
+Print Assumptions C13_count_loop_translated.
+Print Assumptions C13_count_non_air_translated.
+Print Assumptions C13_read_states_translated.
+Print Assumptions C13_read_biomes_translated.
